@@ -161,8 +161,8 @@ pub func thing.vm?(dst: base.io_writer, src: base.io_reader, prog: roslice base.
                 if args.src.length() >= 1 {
                     args.src.skip_u32_fast!(actual: 1, worst_case: 1)
                 }
-                return "#probe error"
             }
+            return "#probe error"
         } else if op == 13 {
             io_limit (io: args.dst, limit: l3) {
                 k = args.dst.limited_copy_u32_from_reader!(up_to: 8, r: args.src)
